@@ -21,11 +21,11 @@ Defects == {"nonstring_node", "cyclic_graph", "no_source", "no_sink", "negative_
             "nonconserving_flow", "constraint_absent_edge", "constraint_not_list_of_lists", "constraint_bad_edge_shape",
             "constraint_empty", "coverage_zero", "coverage_above_one", "coverage_negative", "k_zero", "k_negative",
             "k_not_int", "bad_weight_type", "bad_origin", "unknown_start", "unknown_end", "scaling_above_one",
-            "scaling_negative", "covlen_zero", "covlen_above_one", "covlen_without_length_attr", "covlen_with_coverage"}
+            "scaling_negative", "source_only_self_loop", "sink_only_self_loop", "covlen_zero", "covlen_above_one", "covlen_without_length_attr", "covlen_with_coverage"}
 
 Applies(cls, d) ==
   CASE d = "cyclic_graph" -> cls \in DAGCls
-    [] d \in {"no_source", "no_sink"} -> cls \in CycCls
+    [] d \in {"no_source", "no_sink", "source_only_self_loop", "sink_only_self_loop"} -> cls \in CycCls
     [] d \in {"negative_weight", "missing_weight", "bad_weight_type"} -> cls \notin CoverCls
     [] d = "nonconserving_flow" -> cls \in {"MinFlowDecomp", "kFlowDecomp"}
     [] d \in {"k_zero", "k_negative", "k_not_int"} -> cls \in KCls
@@ -41,7 +41,7 @@ Conflict(a, b) ==
   \/ {a, b} \subseteq {"k_zero", "k_negative", "k_not_int"}
   \/ {a, b} \subseteq {"constraint_absent_edge", "constraint_not_list_of_lists", "constraint_bad_edge_shape", "constraint_empty"}
   \/ {a, b} \subseteq {"scaling_above_one", "scaling_negative"}
-  \/ {a, b} \subseteq {"cyclic_graph", "no_source", "no_sink"}
+  \/ {a, b} \subseteq {"cyclic_graph", "no_source", "no_sink", "source_only_self_loop", "sink_only_self_loop"}
   \/ {a, b} \subseteq {"negative_weight", "missing_weight", "nonconserving_flow"}
 
 (* defects that a class does not document as ValueError but that must still never yield a "solved" model *)
